@@ -191,6 +191,18 @@ def mkcase(rng, lat, lon, order=None, rx=None):
     base = rng.choice((0, 1446332400, rng.randrange(0, 2**31)))
     gap = rng.choice((1, 2, 5, 9, 0.5, 0.4, 1, 2, 30, 50, 3600, 90000))   # the statement sets no limit on the age of the pair
     te, to = (base + gap, base) if o == "e" else (base, base + gap) if o == "o" else (base, base)
+    c = _mk(rng, locals())
+    if c["dt"] is False and rng.random() < 0.12:
+        # plain numbers are just numbers: a clock that counts from its own start may read 0 for the NEWER frame and a negative
+        # value for the older one (or negative for both) - `t or default` / `t > 0` tests are wrong there
+        sh = max(te, to) if rng.random() < 0.6 else max(te, to) + rng.choice((0.25, 7, 1000.5))
+        c["te"], c["to"] = te - sh, to - sh
+    return c
+
+
+def _mk(rng, L):
+    lat, lon, lat1, lon1, te, to = L["lat"], L["lon"], L["lat1"], L["lon1"], L["te"], L["to"]
+    tc, rx = L.get("tc"), L.get("rx")
     return {"p0": [lat, lon], "p1": [lat1, lon1], "rx": rx, "tc": [rng.choice((5, 6, 7, 8)), rng.choice((5, 6, 7, 8))],
             "mov": [rng.randrange(128), rng.randrange(128)], "trk": [rng.randrange(256), rng.randrange(256)],
             "tbit": [rng.randrange(2), rng.randrange(2)], "df": rng.choice((17, 17, 18)),
